@@ -19,3 +19,11 @@ def closed_rule_on_discontinuous(o):
     """D12: only the closed Newton-Cotes rule, and only on a curve that has an interior knot of multiplicity degree+1."""
     t = o.get("tags", {})
     return t.get("method") == "closed-newton-cotes" and t.get("discontinuous") is True
+
+
+def knots_closer_than_tolerance(o):
+    """D3: the witness vector has two distinct values closer than 1e-6 (outside assumption A3)."""
+    from fractions import Fraction
+    w = o.get("witness") or {}
+    v = sorted(set(Fraction(x) for x in w.get("vector", [])))
+    return any(0 < b - a < Fraction(1, 10 ** 6) for a, b in zip(v[:-1], v[1:]))
